@@ -253,6 +253,25 @@ def run_smc(cfg: dict, fault_at=None, fault_prior_at=None, watchdog_iters=400, *
     return out
 
 
+def collapsed_population(res) -> bool:
+    """The library rejected the run itself ("... contains NaN values") because the resampled population collapsed onto a single
+    point, so that the affine preconditioning was fitted with a zero standard deviation.  Confirmed from the sampler's own state
+    (an affine stage whose fitted std holds a zero), never from the message alone.  Such a run is outside every property that
+    speaks about the results of a run; it is counted, not failed."""
+    exc = res.get("exc")
+    if res.get("status") != "raised" or not isinstance(exc, ValueError) or "contains NaN values" not in str(exc):
+        return False
+    tr = getattr(res.get("sampler"), "preconditioning_transform", None)
+    aff = getattr(tr, "_affine_transform", None)
+    std = getattr(aff, "_std", None)
+    if std is None:
+        return False
+    try:
+        return bool(np.any(ns.to_np(std) == 0))
+    except Exception:  # noqa
+        return False
+
+
 def resume_smc(cfg: dict, source, watchdog_iters=400, **extra):
     """fresh sampler + same arguments + same seeds, resume_from=source"""
     return run_smc(cfg, watchdog_iters=watchdog_iters, resume_from=source, **extra)
